@@ -24,8 +24,8 @@ Source shapes read as the same thing (each keeps the Python meaning; the list is
   * loops: a `for` over a literal list/tuple of names is unrolled; every other `for`/`while` is a LOOP BLOCK of the structured
     summary: its body may run any number of times including zero; `for v in range(e)` / `range(0, e)` visits the indices
     0, 1, 2, ... in order (`skips = false`), every other loop may skip any index (`skips = true`).  Loops nested in a loop block
-    (directly or through a called function) are flattened into the body of the outermost one and the effects inside them
-    marked `conditional` with alternative `r`... (see `_LoopCtx`);
+    (directly or through a called function) are flattened into the body of the outermost one; a truncation inside such a nested
+    loop may not happen in a given outer iteration and is listed `conditional` with alternative `r` (see `blocks`);
   * os.system('mv a b') = os.rename/os.replace/shutil.move(a, b); os.system('rm a') = os.remove/os.unlink(a);
   * one level of helper inlining and source-order (not line-number) comparisons: extractors/_norm_c16.py (A, B);
   * the seeded-shuffle rule reads `numpy.` as `np.`; a generator object may be seeded by a literal, by a local only ever
